@@ -14,7 +14,7 @@ ATOMISTIC = {
 }
 COARSE = {
     'CA': '[>][#X][#Y][<]', 'CB': '[$][#P]1[#Q][#R]1[$]', 'CC': '[$][#S][$][$]', 'CD': '[>][#T]=[#U][<][$]',
-    'CE': '[$A][#M][#N][$B]', 'CF': '[!][#K][#L][!]', 'CG': '[$][#W;0.5][#Z;q=1]', 'CH2': '[$]=[#D][#E]=[$]',
+    'CE': '[$A][#M][#N][$B]', 'CZ': '[$][#BB]([#SC1].[#CL])[$]', 'CZ2': '[>][#P].[#NA][#Q][<]', 'CF': '[!][#K][#L][!]', 'CG': '[$][#W;0.5][#Z;q=1]', 'CH2': '[$]=[#D][#E]=[$]',
 }
 
 
